@@ -68,4 +68,20 @@ CHECKS = {
                          'Go memory model reduced to lock-set reasoning over one sync.RWMutex', 'Go race detector for the sampled schedules'],
         'assumptions': ['only the two symbol tables are modelled (the property\'s shared tables)', 'sync.RWMutex semantics: writers exclude readers and writers', 'schedules of the implementation are sampled, the universal claim is the Lean theorem over the extracted lock discipline'],
     },
+    'C04': {
+        'lean_modules': ['Pangaea.Theorems.C04'],
+        'theorem_modules': ['Pangaea.Theorems.C04'],
+        'theorems': ['Pangaea.C04.lit_list_spec', 'Pangaea.C04.prop_list_spec', 'Pangaea.C04.scalar_spec', 'Pangaea.C04.prop_reduce_spec',
+                     'Pangaea.C04.lit_reduce_spec', 'Pangaea.C04.forms_agree_list_scalar', 'Pangaea.C04.forms_agree_reduce', 'Pangaea.C04.list_chain_fail_stop'],
+        'harness': ['C04'],
+        'shards': 14,
+        'spec_is_function': True,
+        'exhaustive': True,
+        'rule': 'exhaustive: 12 chain contexts x 3 call forms (property, literal, variable) x every element table of length <= 3 (4 thorough) over {value, nil result, raise, nil element} '
+                'x chain argument {absent, [], [7]} / initial accumulator {Acc, absent} x call argument {5, none}; random tables up to 8 elements; plus an implementation-only oracle: for receivers '
+                'range, stepped range, int, str, obj, map, iterator literal, nested arr the three forms and the array of the same elements agree in all contexts. '
+                'non-trivial = table has a non-value behaviour and > 1 element; distinct by (case line, source)',
+        'trusted_base': [KERNEL, AX, TIE, 'model Pangaea/Eval/Chain.lean is a hand transcription of eval_propcall_chain.go and eval_literalcall_chain.go; callee, iterator and digest are parameters of the theorems'],
+        'assumptions': ['the callee is a pure function in the theorems (side-effect order is C07/C08)', 'the chain argument / initial accumulator is not an error value (it is checked before the chain runs)', 'Obj/Map digests are exercised only by the forms-agree oracle'],
+    },
 }
